@@ -71,6 +71,12 @@ func (e *Env) typeByName(n string) types.Type {
 		return types.Universe.Lookup("error").Type()
 	}
 	if strings.HasPrefix(n, "ptr_") {
+		inner := strings.ReplaceAll(n[4:], "_DOT_", ".")
+		if strings.Contains(inner, ".") {
+			if t := e.fc.g.namedType(inner); t != nil {
+				return types.NewPointer(t)
+			}
+		}
 		if t := e.typeByName(n[4:]); t != nil {
 			return types.NewPointer(t)
 		}
@@ -652,6 +658,19 @@ func (e *Env) call(x *SExpr) Val {
 		n := "E!" + typeKey(et)
 		fc.regArr(n, "(Array Int (Array "+m.idxSort()+" "+m.scalarSort(et)+"))")
 		return Val{T: types.NewArray(et, 0), S: sx("select", e.state.get(n), v.Sub[0].S)}
+	case "clean":
+		// clean(x): the per-field reset conditions declared with "//@ clean T.f cond"; every field must have one.
+		v := e.tr(x.Args[0])
+		var stT types.Type
+		if p, ok := v.T.Underlying().(*types.Pointer); ok {
+			stT = p.Elem()
+		} else if kindOf(v.T) == KStruct {
+			stT = v.T
+		}
+		if stT == nil {
+			return e.errorf("clean: not a struct")
+		}
+		return Val{T: tBool, S: e.cleanOf(v.S, stT)}
 	case "allzero":
 		// allzero(x, f1, f2, ...): every field of *x except the listed ones has its zero value.
 		// Generated from the struct's field list, so a field added later is covered automatically.
@@ -986,6 +1005,98 @@ func (e *Env) allZero(ref string, stT types.Type, skip map[string]bool) string {
 		default:
 			v := fc.load(e.state, a, f.Type())
 			cs = append(cs, sEq(v.S, fc.zeroVal(f.Type()).S))
+		}
+	}
+	return sAnd(cs...)
+}
+
+func (e *Env) cleanOf(ref string, stT types.Type) string {
+	var cs []string
+	for _, p := range e.cleanParts(ref, stT) {
+		cs = append(cs, p[1])
+	}
+	return sAnd(cs...)
+}
+
+// cleanParts returns (field name, condition) pairs.
+func (e *Env) cleanParts(ref string, stT types.Type) [][2]string {
+	fc := e.fc
+	var out [][2]string
+	st := stT.Underlying().(*types.Struct)
+	decl := fc.g.specs.Cleans[structName(stT)]
+	for i := 0; i < st.NumFields(); i++ {
+		var cs []string
+		f := st.Field(i)
+		cond, ok := decl[f.Name()]
+		if !ok {
+			e.errorf("clean(%s): field %s has no reset condition (add //@ clean %s.%s ...)", structName(stT), f.Name(), structName(stT), f.Name())
+			continue
+		}
+		a := &Addr{Kind: aField, Obj: ref, ST: stT, F: i}
+		kw := cond
+		if j := strings.IndexAny(cond, " \t"); j > 0 {
+			kw = cond[:j]
+		}
+		switch kw {
+		case "exempt":
+			fc.note("reset exemption " + structName(stT) + "." + f.Name() + ": " + strings.TrimSpace(cond[len(kw):]))
+		case "zero", "nil":
+			switch kindOf(f.Type()) {
+			case KStruct:
+				cs = append(cs, e.allZero(fc.structRef(a, f.Type()), f.Type(), nil))
+			case KSlice:
+				v := fc.load(e.state, a, f.Type())
+				cs = append(cs, sEq(v.Sub[0].S, "0"))
+			case KIface:
+				v := fc.load(e.state, a, f.Type())
+				cs = append(cs, sEq(v.Sub[0].S, "0"))
+			default:
+				v := fc.load(e.state, a, f.Type())
+				cs = append(cs, sEq(v.S, fc.zeroVal(f.Type()).S))
+			}
+		case "len0":
+			if kindOf(f.Type()) != KSlice {
+				e.errorf("clean %s.%s: len0 on non-slice", structName(stT), f.Name())
+				continue
+			}
+			v := fc.load(e.state, a, f.Type())
+			cs = append(cs, sEq(v.Sub[2].S, fc.m.intConstI(0, tInt)))
+		case "empty":
+			v := fc.load(e.state, a, f.Type())
+			fc.regArr("G!maplen", "(Array Int Int)")
+			cs = append(cs, sOr(sEq(v.S, "0"), sEq(sx("select", e.state.get("G!maplen"), v.S), "0")))
+		case "bufreset":
+			// embedded bytes.Buffer: empty after Reset
+			bt := f.Type()
+			r := fc.structRef(a, bt)
+			cs = append(cs, e.with(e.state).bufEmpty(r, bt))
+		default:
+			e.errorf("clean %s.%s: unknown condition %q", structName(stT), f.Name(), cond)
+		}
+		if len(cs) > 0 {
+			out = append(out, [2]string{f.Name(), sAnd(cs...)})
+		}
+	}
+	return out
+}
+
+func (e *Env) bufEmpty(ref string, bt types.Type) string {
+	fc := e.fc
+	st, ok := bt.Underlying().(*types.Struct)
+	if !ok {
+		return "true"
+	}
+	var cs []string
+	for i := 0; i < st.NumFields(); i++ {
+		f := st.Field(i)
+		a := &Addr{Kind: aField, Obj: ref, ST: bt, F: i}
+		switch f.Name() {
+		case "buf":
+			v := fc.load(e.state, a, f.Type())
+			cs = append(cs, sEq(v.Sub[2].S, fc.m.intConstI(0, tInt)))
+		case "off":
+			v := fc.load(e.state, a, f.Type())
+			cs = append(cs, sEq(v.S, fc.m.intConstI(0, f.Type())))
 		}
 	}
 	return sAnd(cs...)
